@@ -85,13 +85,12 @@ Definition may_throw (d : dtor_record) : bool :=
   (dt_noexcept_false d =? "yes") || match dt_callees d with [] => false | _ => true end.
 
 (* the destructors (with the possibly-throwing callees of their bodies) that are accepted as known: each one is
-   a way to reach std::terminate and is reported as a known finding (F17, F18) or argued harmless below *)
+   a way to reach std::terminate and is reported as a known finding (F18) or argued harmless below.
+   ~CMsgPackReadObjectScope (F17) left the list with /repo commits 0863f96 + 3580349: all its calls are inside
+   try { } catch (...) { } now. *)
 Definition expected_throwing_dtors : list (string * list string) :=      (* sorted by name *)
   [ ("BitSerializer::Csv::Detail::CCsvWriteObjectScope::~CCsvWriteObjectScope",
        [ "BitSerializer::Csv::Detail::ICsvWriter::NextLine [virtual]" ]);
-    ("BitSerializer::MsgPack::Detail::CMsgPackReadObjectScope::~CMsgPackReadObjectScope",
-       [ "BitSerializer::MsgPack::Detail::CMsgPackReadObjectScope::ResetKey";
-         "BitSerializer::MsgPack::Detail::IMsgPackReader::SkipValue [virtual]" ]);
     (* calls the virtual OnFinishChildScope of the parent scope; its two overriders (array / object read scope)
        only reset a key and increment an index *)
     ("BitSerializer::MsgPack::Detail::CMsgPackScopeBase::~CMsgPackScopeBase",
